@@ -372,7 +372,7 @@ def plan(tier, seed):
     per = 2 if tier == 'quick' else 2
     for i in range(0, len(SPECS), per):
         shards.append({'kernels': [s.name for s in SPECS[i:i + per]],
-                       'cells': 400 if tier == 'quick' else 12000, 'points': 2 if tier == 'quick' else 3})
+                       'cells': 400 if tier == 'quick' else 140000, 'points': 2 if tier == 'quick' else 2})
     return shards
 
 
